@@ -150,7 +150,6 @@ func verifTermList(t *Terminal) {
 	m := map[string]interface{}{}
 	verifTermState(t, m)
 	verifMergerIDs(t.merger, m, true, t.ansi)
-	m["final"] = t.merger.final
 	m["minIndex"] = t.merger.minIndex
 	m["pass"] = t.merger.pass
 	m["mrev"] = []int{t.merger.Revision().major, t.merger.Revision().minor}
